@@ -24,7 +24,7 @@ def run_seed(args):
     env = dict(os.environ, SCPI_REPO=repo, SCPI_EVIDENCE_DIR=base + "/evidence", SCPI_VERIF_CACHE=base + "/cache")
     res = {}
     for p in props:
-        pr = subprocess.run([os.path.join(VERIF, "check"), p], env=env, capture_output=True, text=True)
+        pr = subprocess.run([os.path.join(SNAP, "check"), p], env=env, capture_output=True, text=True)
         out = pr.stdout + pr.stderr
         viol = re.findall(r"^\[%s\] (R[\w.]+): " % p, out, flags=re.M)
         res[p] = {"rc": pr.returncode, "rules": sorted(set(viol))}
@@ -33,8 +33,14 @@ def run_seed(args):
     return sid, res
 
 
+SNAP = "/tmp/vscratch/snap-%s-%d" % (CORPUS, os.getpid())
+
+
 def main():
     jobs = []
+    # the checks run from a snapshot of /verif taken now, so that editing rules while a matrix runs does not mix versions
+    os.makedirs(SNAP, exist_ok=True)
+    subprocess.run(["rsync", "-a", "--delete", "--exclude", ".git", "--exclude", ".cache", "--exclude", "evidence", "--exclude", "seeded*", "--exclude", "refactors*", "--exclude", "driver/target/debug/deps", "--exclude", "driver/target/debug/build", "--exclude", "driver/target/debug/incremental", "--exclude", "driver/target/debug/.fingerprint", VERIF + "/", SNAP + "/"], check=True)
     with ThreadPoolExecutor(max_workers=workers) as ex:
         # a worker id per thread: round-robin static assignment
         chunks = [[] for _ in range(workers)]
@@ -56,6 +62,7 @@ def main():
         else:
             old[k_] = v_
     json.dump(old, open(path, "w"), indent=1, sort_keys=True)
+    shutil.rmtree(SNAP, ignore_errors=True)
     missed = [s for s, r in old.items() if isinstance(r, dict) and "error" not in r and not r.get(s.split("-")[0], {}).get("rc")]
     if CORPUS == "seeded":
         print("seeds:", len(old), "missed by own property's check:", missed)
